@@ -203,12 +203,6 @@ func HarnessC08(fam, nT, nV, convCode, form, filt int) {
 		return
 	}
 	log1 := w.Log
-	var ue *ErrArgumentUnsatisfied
-	vnAssertK(!(r1.Err() != nil && errors.As(r1.Err(), &ue)), "C08.redefined-function-never-lacks-an-argument", w.classifyRedefine(decl))
-	w.Log = nil
-	vnScheduleRestart()
-	r2 := w.Funcs[0].Call(append(append([]Arg{}, args...), extra...)...)
-	log2 := w.Log
 	// "the original function's own results" are unique only when no parameter has two
 	// compatible sources to choose from (the redefined function resolves its own
 	// parameters too, so its declared inputs count as parameters)
@@ -238,6 +232,24 @@ func HarnessC08(fam, nT, nV, convCode, form, filt int) {
 			unique = false
 		}
 	}
+	// every function executed by the redefined function obeys C01 too: its arguments
+	// are compatible sources (the original values plus the fresh ones). Known finding P:
+	// when a parameter has two compatible sources, the redefined function may resolve its
+	// own type-only input from a differently named value and pass it on re-labelled.
+	if !unique {
+		w.provFinding = "P"
+	}
+	savedVals := w.Vals
+	w.Vals = append(append([]hVal{}, w.Vals...), extraVals...)
+	w.hProvenance("C08.provenance")
+	w.Vals = savedVals
+	w.provFinding = ""
+	var ue *ErrArgumentUnsatisfied
+	vnAssertK(!(r1.Err() != nil && errors.As(r1.Err(), &ue)), "C08.redefined-function-never-lacks-an-argument", w.classifyRedefine(decl))
+	w.Log = nil
+	vnScheduleRestart()
+	r2 := w.Funcs[0].Call(append(append([]Arg{}, args...), extra...)...)
+	log2 := w.Log
 	if r1.Err() == nil && r2.Err() == nil && unique {
 		vnAssert(r1.Len() == r2.Len(), "C08.same-result-arity")
 		ids1, ids2 := hResultIDs(r1), hResultIDs(r2)
